@@ -4,7 +4,28 @@ typedef struct { size_t pos; iora_ostr decoded; size_t messageEnd; } ChunkState;
 #define ChunkState_DEFAULT ((ChunkState){ .pos = 0, .decoded = {0, 0}, .messageEnd = 0 })
 _Bool G_step_fell;        /* set by the outlined loop body when it falls off its end (= the loop goes round again) */
 
-#define AC_ISHEX(c_) (((c_) >= (char)48 & (c_) <= (char)57) | ((c_) >= (char)65 & (c_) <= (char)70) | ((c_) >= (char)97 & (c_) <= (char)102))
+/* hex digit test with two reads of its argument (every dereference inside an invariant is expensive: measured ~0.4 M
+ * clauses each on this function) */
+#define AC_ISHEX(c_) ((((unsigned char)(c_) - 48u) <= 9u) | ((((unsigned char)(c_) | 32u) - 97u) <= 5u))
+/* Invariant clauses about buffer CONTENT are switched on per proof (a proof that does not need a clause does not pay for
+ * it; dropping an invariant clause can only make a proof fail, never pass wrongly):
+ *   AC_INV_BODY     decoded witness byte == source byte, trailer loop stands after a CRLF            (proof functional)
+ *   AC_INV_WITNESS  hex run is all hex (GD, GB), BWS run is all BWS (GF), no empty line before tp (GF) (proofs functional/step) */
+#ifdef AC_INV_BODY
+#define AC_BODY(e_) (e_)
+#else
+#define AC_BODY(e_) 1
+#endif
+#ifdef AC_INV_WITNESS
+#define AC_WIT(e_) (e_)
+#else
+#define AC_WIT(e_) 1
+#endif
+#ifdef AC_INV_HEXWIT
+#define AC_HEXWIT(e_) (e_)
+#else
+#define AC_HEXWIT(e_) 1
+#endif
 
 /* loop 1 (chunk loop): position monotone and inside the buffer; decoded grows by less than what is consumed; the witness
  * byte of decoded was copied from a consumed position; messageEnd untouched; variant: distance to the end of the buffer */
@@ -14,28 +35,28 @@ _Bool G_step_fell;        /* set by the outlined loop body when it falls off its
   __CPROVER_loop_invariant(__CPROVER_loop_entry(st->decoded.n) <= st->decoded.n && st->decoded.n - __CPROVER_loop_entry(st->decoded.n) <= st->pos - __CPROVER_loop_entry(st->pos)) \
   __CPROVER_loop_invariant(st->messageEnd == __CPROVER_loop_entry(st->messageEnd)) \
   __CPROVER_loop_invariant((GK >= __CPROVER_loop_entry(st->decoded.n) && GK < st->decoded.n) ==> (G_src_set && G_src >= __CPROVER_loop_entry(st->pos) && G_src < st->pos)) \
-  __CPROVER_loop_invariant((GK >= __CPROVER_loop_entry(st->decoded.n) && GK < st->decoded.n) ==> st->decoded.gk == buf.p[G_src]) \
+  __CPROVER_loop_invariant(AC_BODY((GK >= __CPROVER_loop_entry(st->decoded.n) && GK < st->decoded.n) ==> st->decoded.gk == buf.p[G_src])) \
   __CPROVER_loop_invariant(GK < __CPROVER_loop_entry(st->decoded.n) ==> st->decoded.gk == __CPROVER_loop_entry(st->decoded.gk)) \
   __CPROVER_decreases(buf.n - st->pos))
 /* loop 2 (hex run): every byte of [p, hexEnd) is a hex digit (witnesses GD, GB) */
 #define AC_LOOP_HEX IORA_LC( \
   __CPROVER_assigns(hexEnd) \
   __CPROVER_loop_invariant(p <= hexEnd && hexEnd <= lineEnd) \
-  __CPROVER_loop_invariant(GD < hexEnd - p ==> AC_ISHEX(buf.p[p + GD])) \
-  __CPROVER_loop_invariant(GB < hexEnd - p ==> AC_ISHEX(buf.p[p + GB])) \
+  __CPROVER_loop_invariant(AC_HEXWIT(GD < hexEnd - p ==> AC_ISHEX(buf.p[p + GD]))) \
+  __CPROVER_loop_invariant(AC_HEXWIT(GB < hexEnd - p ==> AC_ISHEX(buf.p[p + GB]))) \
   __CPROVER_decreases(lineEnd - hexEnd))
 /* loop 3 (BWS run) */
 #define AC_LOOP_BWS IORA_LC( \
   __CPROVER_assigns(q, sawBws) \
   __CPROVER_loop_invariant(hexEnd <= q && q <= lineEnd && sawBws == (q > hexEnd)) \
-  __CPROVER_loop_invariant((hexEnd <= GF && GF < q) ==> IORA_IS_OWS(buf.p[GF])) \
+  __CPROVER_loop_invariant(AC_HEXWIT((hexEnd <= GF && GF < q) ==> IORA_IS_OWS(buf.p[GF]))) \
   __CPROVER_decreases(lineEnd - q))
 /* loop 4 (trailer section): tp only moves forward, from line start to line start */
 #define AC_LOOP_TRAILER IORA_LC( \
   __CPROVER_assigns(tp, st->messageEnd) \
   __CPROVER_loop_invariant(dataStart <= tp && tp <= buf.n && tp >= 2 && st->messageEnd == __CPROVER_loop_entry(st->messageEnd)) \
-  __CPROVER_loop_invariant(IORA_SV_CRLF_AT(buf, tp - 2)) \
-  __CPROVER_loop_invariant((dataStart - 2 <= GF && GF < tp - 2) ==> !IORA_SV_CRLF2_AT(buf, GF)) \
+  __CPROVER_loop_invariant(AC_BODY(IORA_SV_CRLF_AT(buf, tp - 2))) \
+  __CPROVER_loop_invariant(AC_WIT((dataStart - 2 <= GF && GF < tp - 2) ==> !IORA_SV_CRLF2_AT(buf, GF))) \
   __CPROVER_decreases(buf.n - tp))
 #define IORA_LOOP_HttpClient_advanceChunked_2 AC_LOOP_HEX
 #define IORA_LOOP_HttpClient_advanceChunked_3 AC_LOOP_BWS
